@@ -148,8 +148,8 @@ PROPS["C18"] = {"level": "fault_enumeration", "conc": True, "assumptions": _A + 
 PROPS["C16"] = {"level": "model_checking", "conc": True, "assumptions": _A}
 PROPS["C17"] = {"level": "exploration", "conc": True, "assumptions": _A + ["projection chains: container, Map (static), Box<dyn DynAccess>, Map of Map, AccessConvert, ArcSwapAny::map over a reference"]}
 NONTRIVIAL["C17"] = ("distinct executions in which a projection guard is dereferenced after a write", lambda evs: _has(evs, lambda e: e["e"] == "deref" and e.get("k") == "p") and _has(evs, lambda e: e["e"] == "w"))
-CONC_PLAN["quick"] += [("panic_help", 400), ("help2w", 2500), ("aba", 500), ("adv", 150), ("solo", 1500), ("solo2c", 300), ("access", 600), ("cache2", 1500), ("serde", 500), ("rcu_reentrant", 60)]
-CONC_PLAN["thorough"] += [("panic_help", 4000), ("help2w", 40000), ("aba", 5000), ("adv", 1500), ("solo", 20000), ("solo2c", 3000), ("access", 6000), ("cache2", 15000), ("serde", 5000), ("rcu_reentrant", 400)]
+CONC_PLAN["quick"] += [("rwlock", 800), ("panic_help", 400), ("help2w", 2500), ("aba", 500), ("adv", 150), ("solo", 1500), ("solo2c", 300), ("access", 600), ("cache2", 1500), ("serde", 500), ("rcu_reentrant", 60)]
+CONC_PLAN["thorough"] += [("rwlock", 10000), ("panic_help", 4000), ("help2w", 40000), ("aba", 5000), ("adv", 1500), ("solo", 20000), ("solo2c", 3000), ("access", 6000), ("cache2", 15000), ("serde", 5000), ("rcu_reentrant", 400)]
 
 NOT_APPLICABLE = {}
 MANIFEST_TEXT = {
